@@ -18,23 +18,35 @@ def main():
         sh("git -C /repo worktree remove --force %s" % wt, "/")
         rc, out = sh("git -C /repo worktree add %s HEAD" % wt, "/")
         res = {"name": name, "property": pid}
+        feat = " --features serde,arbitrary" if pid == "C19" else ""
         try:
             rc, out = sh("git apply %s/patch.diff" % src, wt)
             res["patch_applies"] = rc == 0
             if rc != 0:
                 res["error"] = out[-500:]
                 continue
-            rc, out = sh("cargo test --offline 2>&1 | grep -E 'test result|^error|panicked'", wt)
+            rc, out = sh("cargo test --offline" + feat + " 2>&1 | grep -E 'test result|^error|panicked'", wt)
             fails = re.findall(r"test result: FAILED|error\[|error:", out)
             oks = re.findall(r"test result: ok\. (\d+) passed", out)
             res["suite_passes_with_change"] = (not fails) and len(oks) >= 4
             res["suite_summary"] = [int(x) for x in oks]
             shutil.copy(os.path.join(src, "demo.rs"), os.path.join(wt, "tests", "demo_seed.rs"))
-            rc1, out1 = sh("cargo test --offline --test demo_seed 2>&1 | tail -15", wt)
+            rc1, out1 = sh("cargo test --offline" + feat + " --test demo_seed 2>&1 | tail -15", wt)
             res["demo_fails_with_change"] = ("test result: FAILED" in out1) or ("SIGSEGV" in out1) or ("signal" in out1) or ("error: test failed" in out1)
+            res["demo_mode"] = "cargo test"
+            if not res["demo_fails_with_change"] and pid == "C04":
+                # a missing ordering edge cannot fail natively on x86: accept a Miri data-race report
+                rcm, outm = sh("MIRIFLAGS=-Zmiri-disable-isolation cargo +nightly miri test --offline --test demo_seed 2>&1 | tail -30", wt, timeout=3000)
+                res["demo_fails_with_change"] = ("Undefined Behavior" in outm) or ("Data race" in outm)
+                res["demo_mode"] = "cargo +nightly miri test"
+                out1 = outm
             sh("git apply -R %s/patch.diff" % src, wt)
-            rc2, out2 = sh("cargo test --offline --test demo_seed 2>&1 | tail -15", wt)
-            res["demo_passes_without_change"] = bool(re.search(r"test result: ok\.", out2)) and "FAILED" not in out2
+            if res["demo_mode"].startswith("cargo +nightly miri"):
+                rc2, out2 = sh("MIRIFLAGS=-Zmiri-disable-isolation cargo +nightly miri test --offline --test demo_seed 2>&1 | tail -30", wt, timeout=3000)
+                res["demo_passes_without_change"] = bool(re.search(r"test result: ok\.", out2)) and "Undefined Behavior" not in out2
+            else:
+                rc2, out2 = sh("cargo test --offline" + feat + " --test demo_seed 2>&1 | tail -15", wt)
+                res["demo_passes_without_change"] = bool(re.search(r"test result: ok\.", out2)) and "FAILED" not in out2
             res["demo_tail_with_change"] = out1[-600:]
             ok = all(res.get(k) for k in ("patch_applies", "suite_passes_with_change", "demo_fails_with_change", "demo_passes_without_change"))
             res["confirmed"] = ok
